@@ -1225,7 +1225,7 @@ func simplifyEgress(p *Plan) []*Plan {
 func init() {
 	register(&Profile{
 		ID: "C06", Name: "idp-egress", Level: "exploration",
-		Rule: "each run: one library IdP configured with {private key | crypto.Signer wrapper} x signature method {unset, rsa-sha1/256/384/512} x 0-2 intermediates, a registry (exact or case-insensitive lookup) of 1-3 hand-built SP metadata documents (1-2 SPSSODescriptors, 1-4 ACS endpoints with POST/Redirect/Artifact/unknown bindings, non-positional unique indices, isDefault flags, repeated locations, attribute-consuming services with requested attributes, key descriptor encryption/unspecified/signing/none) and 2-3 sessions whose every string is a unique marker; 1-4 emissions via ServeSSO, the NewIdpAuthnRequest..PostBinding sequence, or ServeIDPInitiated, where the real SP's request names its ACS by registered URL, by index, by index plus a disagreeing URL, or not at all, in either binding, and the IdP's skewed clock sits {at, 1ms/half/just-inside MaxIssueDelay after, around MaxClockSkew after, before} the request's IssueInstant with tolerances drawn per run; every emitted form is parsed with an HTML5 parser and checked field by field against the model, signatures with the monitor's own goxmldsig validation context, encrypted assertions after decrypting with the SP key; non-trivial = the run contains at least one emission (every check then discriminates between the model's values and any other); distinct = distinct abstract event log (entry, binding, ask mode, clock class, signing config, registry lookup, encryption, selected endpoint, outcome)",
+		Rule: "each run: one library IdP configured with {private key | crypto.Signer wrapper} x signature method {unset, rsa-sha1/256/384/512} x 0-2 intermediates, a registry (exact or case-insensitive lookup) of 1-3 hand-built SP metadata documents (1-2 SPSSODescriptors, 1-4 ACS endpoints with POST/Redirect/Artifact/unknown bindings, non-positional unique indices, isDefault flags, repeated locations, attribute-consuming services with requested attributes, key descriptor encryption/unspecified/signing/none) and 2-3 sessions whose every string is a unique marker; 1-4 emissions via ServeSSO, the NewIdpAuthnRequest..PostBinding sequence, or ServeIDPInitiated, where the real SP's request names its ACS by registered URL, by index, by index plus a disagreeing URL, or not at all, in either binding, and the IdP's skewed clock sits {at, 1ms/half/just-inside MaxIssueDelay after, around MaxClockSkew after, before} the request's IssueInstant with tolerances drawn per run; every emitted form is parsed with an HTML5 parser and checked field by field against the model, signatures with the monitor's own goxmldsig validation context, encrypted assertions after decrypting with the SP key; non-trivial = the run contains at least one emission (every check then discriminates between the model's values and any other); distinct = distinct abstract event log (entry, binding, ask mode, clock class, signing config, registry lookup, encryption, selected endpoint, outcome); registered ACS elements may carry a ResponseLocation attribute; with an external signer the n-th signing operation of an emission may fail, after which the application asks the same request object for its form again (whatever that emits is checked like any emission); requests may carry a Subject naming a principal and sessions may have no NameID (the assertion names the session's principal only)",
 		Gen:  genEgress, Exec: execEgress, Simplify: simplifyEgress,
 		RunsQuick: 4000, RunsThorough: 300000,
 		Assumptions: []string{
